@@ -30,6 +30,7 @@ import (
 
 const (
 	DefaultMaxNodeSize                   = 4096
+	MaxNodeSize                          = 1 << 27 // upper bound, also for the value persisted in the commit log
 	DefaultFlushThld                     = 100_000
 	DefaultSyncThld                      = 1_000_000
 	DefaultFlushBufferSize               = 4096
@@ -140,6 +141,10 @@ func (opts *Options) Validate() error {
 
 	if opts.maxValueSize <= 0 || opts.maxValueSize > math.MaxUint16 {
 		return fmt.Errorf("%w: invalid MaxValueSize", ErrInvalidOptions)
+	}
+
+	if opts.maxNodeSize > MaxNodeSize {
+		return fmt.Errorf("%w: invalid MaxNodeSize", ErrInvalidOptions)
 	}
 
 	if opts.maxNodeSize < requiredNodeSize(opts.maxKeySize, opts.maxValueSize) {
